@@ -206,7 +206,7 @@ def run(ctx):
         h = gen_history(g, ctx.rng, ln)
         hists.append(h)
         for it in h.items:
-            if it[0] in (2, 3) or 4 <= it[0] <= 13:
+            if it[0] in (2, 3, 28, 32) or 4 <= it[0] <= 13:
                 ctx.count("op:" + ("setparent" if it[0] == 2 else "set." + world.SETM[it[3]] if it[0] == 3 else "modules.%d" % it[0]))
         for r in h.replies:
             if r and r[0] == -1:
